@@ -127,19 +127,14 @@ func TestHeartbeatInterleavings(t *testing.T) {
 	shard, shards := world.EnvInt("VERIF_SHARD", 0), world.EnvInt("VERIF_SHARDS", 1)
 	reached := 0
 	exhaustive := true
-	job := 0
+	seq := 0 // schedules executed so far; every shard enumerates all of them and judges its share
 	for si, sc := range scenarios {
 		for init := 1; init >= 0; init-- { // 1: the heartbeat is running when the calls start
 			si, sc, init := si, sc, init
 			if init == 0 && !strings.Contains(sc.Name, "Start") {
 				continue // Stop calls on a stopped heartbeat never enter a window
 			}
-			job++
-			if replay != nil {
-				if replay.Params["scenario"] != si || replay.Params["running"] != init {
-					continue
-				}
-			} else if job%shards != shard {
+			if replay != nil && (replay.Params["scenario"] != si || replay.Params["running"] != init) {
 				continue
 			}
 			build := func() ([]sched.Op, func(*sched.Result)) {
@@ -158,6 +153,12 @@ func TestHeartbeatInterleavings(t *testing.T) {
 				}
 				return ops, func(r *sched.Result) {
 					defer fx.close()
+					seq++
+					if replay == nil && seq%shards != shard {
+						// another shard observes this schedule (the observation takes ~0.8 s of real time)
+						fx.leaked = true
+						return
+					}
 					defer func() {
 						if t.Failed() {
 							world.SaveReplay("TestHeartbeatInterleavings.json", sched.ReplaySpec{Test: "TestHeartbeatInterleavings",
